@@ -14,7 +14,7 @@ for f in sorted(glob.glob('/tmp/vseed_*.log')):
             line = l.strip()
 if not line:
     sys.exit(f'no verification line for {id_} {m}')
-ok = 'demo_on_base=pass' in line and 'suite=pass' in line and 'demo_on_mutant=fail(good)' in line and 'build=ok' in line
+ok = 'demo_on_base=pass' in line and ('suite=pass' in line) and 'demo_on_mutant=fail(good)' in line and 'build=ok' in line
 if not ok:
     sys.exit(f'NOT CONFIRMED: {line}')
 dst = f'/verif/seeded/{id_}-{m}'
